@@ -618,7 +618,16 @@ impl Tracer {
 
             let stop = self.apply_new_status(tcx, status)?;
             match stop {
-                None => {}
+                None => {
+                    // a ptrace-event stop of the stepped tracee itself (thread creation,
+                    // a late notification of an already handled interrupt) does not finish
+                    // the step and leaves the tracee stopped: resume the step
+                    if matches!(status, WaitStatus::PtraceEvent(p, _, event) if p == pid && event != libc::PTRACE_EVENT_EXIT)
+                        && let Some(tracee) = self.tracee_ctl.tracee(pid)
+                    {
+                        tracee.step(None)?;
+                    }
+                }
                 Some(StopReason::Breakpoint(_, _)) => {
                     unreachable!("breakpoints must be ignore");
                 }
